@@ -51,7 +51,11 @@ func (e *executionContext) appendLog(ctx context.Context, build func() *ledger.L
 	e.commander.appendMu.Lock()
 	defer e.commander.appendMu.Unlock()
 
-	chainedLog := e.commander.chainLog(build())
+	log := build()
+	if e.parameters.IdempotencyKey != "" {
+		log = log.WithIdempotencyKey(e.parameters.IdempotencyKey)
+	}
+	chainedLog := e.commander.chainLog(log)
 	verifhook.Yield(ctx, "chained", "id", chainedLog.ID)
 	logging.FromContext(ctx).WithFields(map[string]any{
 		"id": chainedLog.ID,
